@@ -588,6 +588,9 @@ package chain
 //@ iface Store.AddBlock
 //@   assigns ghost:hdr, ghost:body, ghost:supp
 //@   requires [validated] bs != nil ==> (called("ValidateBlock") && callres("ValidateBlock") == nil && callarg("ValidateBlock", 1) == b) || PreValidatedBlock(b)
+// ... and the supplement stored with it is the very one the block was applied with (subscribers'
+// updates are recomputed from the stored supplement: C04)
+//@   requires [applied-supplement] bs != nil && called("ApplyBlock") ==> same(*bs, callarg("ApplyBlock", 2)) && same(b, callarg("ApplyBlock", 1))
 //@   ensures hdr == old(hdr)[b.ID() := b.Header()] && body == old(body)[b.ID() := b]
 //@   ensures supp == ite(bs != nil, old(supp)[b.ID() := true], remove(old(supp), b.ID()))
 //@ iface Store.ApplyBlock
